@@ -100,6 +100,21 @@ def trunc64 (v : Nat) : Nat :=
   let k := Nat.log2 v + 1 - 64
   (v >>> k) <<< k
 
+/-- the radix prefixes of `integer` -/
+def radixOf (s : List Char) : Nat × List Char :=
+  match s with
+  | '0' :: 'b' :: ds => (2, ds)
+  | '0' :: 'o' :: ds => (8, ds)
+  | '0' :: 'x' :: ds => (16, ds)
+  | ds => (10, ds)
+
+/-- `f.Int64()` and the `switch` on its accuracy: Above = the exact value is below minInt, Below =
+    it is above maxInt -/
+def toInt64 (f : Int) : Except PErr Int :=
+  if f < -9223372036854775808 then .error (.rep "min_integer")
+  else if f > 9223372036854775807 then .error (.rep "max_integer")
+  else .ok f
+
 /-- `integer(sign, s)` -/
 def integer (sign : Int) (s : List Char) : Except PErr Int :=
   match s with
@@ -107,18 +122,7 @@ def integer (sign : Int) (s : List Char) : Except PErr Int :=
     match unescapeFrom '\'' .norm cs with
     | c :: _ => .ok (sign * c.toNat)
     | [] => .ok 0   -- `[]rune(s)[0]` would panic; no integer token has an empty character part
-  | _ =>
-    let (base, ds) : Nat × List Char :=
-      match s with
-      | '0' :: 'b' :: ds => (2, ds)
-      | '0' :: 'o' :: ds => (8, ds)
-      | '0' :: 'x' :: ds => (16, ds)
-      | ds => (10, ds)
-    let f : Int := sign * (trunc64 (natOfDigits base ds) : Nat)
-    -- `f.Int64()`: Above = the exact value is below minInt, Below = it is above maxInt
-    if f < -9223372036854775808 then .error (.rep "min_integer")
-    else if f > 9223372036854775807 then .error (.rep "max_integer")
-    else .ok f
+  | _ => toInt64 (sign * (trunc64 (natOfDigits (radixOf s).1 (radixOf s).2) : Nat))
 
 /-- `float(sign, s)`: bits of the result -/
 def float (negative : Bool) (s : List Char) : UInt64 :=
